@@ -97,6 +97,8 @@ def gen_case(rng, i):
         # nest a part of the walk as its own group
         if len(w) >= 5 and rng.random() < 0.45:
             a = rng.randrange(0, (len(w) - 3) // 2 + 1) * 2
+            if len(w) >= 7 and rng.random() < 0.4:
+                a = 2
             b = rng.randrange(a // 2 + 1, len(w) // 2 + 1) * 2
             sub = w[a:b + 1]
             sid = gid + 's'
@@ -106,7 +108,9 @@ def gen_case(rng, i):
             # the elements next to the nested group are kept explicit unless they are edges
             pre = ['%s%s' % (x[1], x[2]) for x in w[:a]] if a > 0 else []
             post = ['%s%s' % (x[1], x[2]) for x in w[b + 1:]]
-            if pre and rng.random() < 0.5:
+            if len(pre) == 2 and rng.random() < 0.5:
+                pre = pre[1:]                     # the group starts with the edge that leads into the nested path
+            elif pre and rng.random() < 0.5:
                 pre = pre[:-1] if len(pre) >= 2 and rng.random() < 0.5 else pre     # drop the joining edge: the sub path starts with the same segment
             its = pre + [sid + so] + post
             notes['nested'] = True
